@@ -125,4 +125,18 @@ CLAIMS = {
               "circuits). Position in the exported record = listing order is C08.S2. Trusted: dataclass field semantics."),
         technique="static analysis: loop summary by exhaustive case table over extracted atoms, Boolean equivalence of filters, typed store pairing",
     ),
+    "C08": dict(
+        text=("Decides that the exporter is an instruction-by-instruction image of the listing for all circuits: the 15-entry "
+              "operation-type -> gate table is evaluated from its literal and compared with the documented mapping (a missing or re-mapped "
+              "class is reported); the factories emit the configured name on get_qubit_index(operation) (order-preserving unique qubits of "
+              "the operation's own channels), TICK, or the operation's own annotation; the walk is tabulated over (is sub-circuit, is "
+              "supported): whole node iterator in order, sub-circuit -> recursive export added operation.nr_of_repetitions times, supported "
+              "-> exactly one append of its own factory's result, unsupported -> nothing, nothing emitted outside the walk; detector, "
+              "observable and coordinate-shift instructions are tabulated over all 16 None-ness cases with their record offsets compared "
+              "in affine normal form."),
+        note=("Not decided: 'identical program before/after unrolling for library circuits' (layer order of a rebuilt graph is a run-time "
+              "fact); the multiset clause follows from S2 with C06. Trusted: the documented mapping and offset forms (spec table in the "
+              "rule), stim's CircuitInstruction/target_rec semantics."),
+        technique="static analysis: literal table evaluation vs. spec, exhaustive case table of the walk, affine normal forms of record offsets",
+    ),
 }
